@@ -156,6 +156,7 @@ func init() {
 		out := fs.String("out", "", "")
 		seed := fs.Int64("seed", 1, "")
 		maxExh := fs.Int("max-exhaustive", 16, "wires up to this length get all 2^(n-1) segmentations")
+		maxExhDmg := fs.Int("max-exhaustive-damage", 16, "same, for wires carrying a damage event")
 		sampled := fs.Int("sampled", 2000, "segmentations sampled for longer wires")
 		long := fs.String("long", "quick", "long-frame family: quick|thorough|off")
 		fs.Parse(args)
@@ -229,7 +230,11 @@ func init() {
 			if n == 0 {
 				return
 			}
-			if n <= *maxExh {
+			lim := *maxExh
+			if c.Dmg.Kind != "none" {
+				lim = *maxExhDmg
+			}
+			if n <= lim {
 				for m := uint64(0); m < 1<<(n-1); m++ {
 					check(c, frames, wire, cutsFromMask(m, n), 64, class)
 				}
